@@ -308,7 +308,7 @@ func knobsFor(prop string, faulty bool) knobs {
 			k.stopper = 12
 		}
 	case "C07":
-		k.watchMin, k.watchMax = 2, 3
+		k.watchMin, k.watchMax = 1, 3 // (with a single reporter a source may also update its value object in place and report it again)
 		k.pBlocking = 70
 		k.secondReporter = 30 // two blocking reports of ONE source in flight at the same time
 		k.blank = 30
@@ -496,6 +496,11 @@ func genCore(prop string, seed uint64, faulty bool) *Scenario {
 				}
 				if j == 0 && n == 1 && g.pct(k.doneOps) {
 					c.Ops = append(c.Ops, Op{K: "done"})
+					if g.pct(25) {
+						// Done once more (a deferred clean-up plus an explicit call):
+						// one finished source, not two
+						c.Ops = append(c.Ops, Op{K: "done"})
+					}
 					if g.pct(30) {
 						// it keeps reporting after its Done
 						for o, m := 0, g.in(1, 2); o < m; o++ {
